@@ -48,10 +48,11 @@ class LoopModel:
         self.T_assigns = []
         for st in self.pre:
             if isinstance(st, ast.Assign) and len(st.targets) == 1 and \
-                    isinstance(st.targets[0], ast.Name) and isinstance(st.value, ast.Call):
-                q = self.res(st.value.func)
-                if q in ('numpy.hstack', 'numpy.concatenate') and \
-                        '.data.index' in norm_text(st.value):
+                    isinstance(st.targets[0], ast.Name):
+                merges = [x for x in ast.walk(st.value) if isinstance(x, ast.Call) and
+                          self.res(x.func) in ('numpy.hstack', 'numpy.concatenate') and
+                          '.data.index' in norm_text(x)]
+                if merges:
                     self.T = st.targets[0].id
                     break
         ctx.need(self.T is not None, '%s: epoch list (hstack of measurement indices) not '
@@ -222,29 +223,46 @@ def _under_none_guard(body, st, name):
     return isinstance(st, ast.If) and name in norm_text(st.test)
 
 
+def _epoch_stages(M):
+    T = M.T
+    stages = {}
+    for i, st in enumerate(M.T_assigns):
+        txt = norm_text(st)
+        for n in ast.walk(st):
+            if isinstance(n, ast.Call):
+                q = M.res(n.func)
+                if q in ('numpy.hstack', 'numpy.concatenate'):
+                    stages.setdefault('merge', (i, st, n))
+                if q == 'numpy.unique' and n.args:
+                    # de-duplication counts only when it is applied to the merged list,
+                    # not to each stream inside the comprehension
+                    inner = {id(x) for c_ in ast.walk(st)
+                             if isinstance(c_, (ast.ListComp, ast.GeneratorExp))
+                             for x in ast.walk(c_)}
+                    arg_has_merge = any(
+                        isinstance(x, ast.Call) and M.res(x.func) in ('numpy.hstack',
+                                                                      'numpy.concatenate')
+                        for x in ast.walk(n.args[0])) or any(
+                        isinstance(x, ast.Name) and x.id == T for x in ast.walk(n.args[0]))
+                    if id(n) not in inner and arg_has_merge:
+                        stages.setdefault('unique', (i, st, n))
+                if q == 'numpy.append' and len(n.args) == 2 and \
+                        M.res(n.args[1]) == 'numpy.inf':
+                    stages['sentinel'] = (i, st, n)
+            if isinstance(n, ast.Subscript) and isinstance(n.value, ast.Name) and \
+                    n.value.id == T and isinstance(n.slice, ast.BinOp) and \
+                    isinstance(n.slice.op, ast.BitAnd):
+                stages.setdefault('clip', (i, st, n))
+    return stages
+
+
 # --------------------------------------------------------------- SCHED-EPOCHS
 def sched_epochs(ctx, which=(FB, FF)):
     ctx.rule('SCHED-EPOCHS', 'epoch list: hstack of all measurement indices -> np.unique -> '
              'clip to [start, end] -> +inf sentinel appended last')
     for M in _models(ctx, which):
         f, T = M.f, M.T
-        stages = {}
-        for i, st in enumerate(M.T_assigns):
-            txt = norm_text(st)
-            for n in ast.walk(st):
-                if isinstance(n, ast.Call):
-                    q = M.res(n.func)
-                    if q in ('numpy.hstack', 'numpy.concatenate'):
-                        stages.setdefault('merge', (i, st, n))
-                    if q == 'numpy.unique':
-                        stages.setdefault('unique', (i, st, n))
-                    if q == 'numpy.append' and len(n.args) == 2 and \
-                            M.res(n.args[1]) == 'numpy.inf':
-                        stages['sentinel'] = (i, st, n)
-                if isinstance(n, ast.Subscript) and isinstance(n.value, ast.Name) and \
-                        n.value.id == T and isinstance(n.slice, ast.BinOp) and \
-                        isinstance(n.slice.op, ast.BitAnd):
-                    stages.setdefault('clip', (i, st, n))
+        stages = _epoch_stages(M)
         first = M.T_assigns[0]
         # merge covers every measurement object
         mg = stages.get('merge')
@@ -540,12 +558,8 @@ def sched_sibling(ctx, report=('feedback', 'feedforward')):
     feats = {}
     for M in Ms:
         s = set()
-        for st in M.T_assigns:
-            for n in ast.walk(st):
-                if isinstance(n, ast.Call):
-                    q = M.res(n.func)
-                    if q and q.startswith('numpy.'):
-                        s.add('prelude:' + q)
+        for k in _epoch_stages(M):
+            s.add('epoch-list stage: ' + k)
         body = M.loop.body
         if any(isinstance(g, ast.While) for g in M.guards):
             s.add('draining measurement-due loop')
